@@ -56,3 +56,14 @@ Theorem C03_casts_correct_repaired :
         forall fuel cs' cv, ceval E csub xi fuel cs e = Some (cs', cv) -> cs' = cs /\ agrees pv cv ilv.
 Proof. exact expr_correct_unconditional. Qed.
 Print Assumptions C03_casts_correct_repaired.
+
+(* ------------------------------------------------------------------ the cast table IS the compiler's *)
+(* OpTables.cast_il_exec (width and fill bit of the emitted CAST) = the elaboration of what Cast.il_exec emits, for all types and
+   operands; gen/OpTablesGen.v is regenerated from Pures/Cast.py on every run (tools/vt/tr_optables.py) *)
+From RZ.sem Require Import CBody.
+From RZ.gen Require Import OpTablesGen.
+From RZ.proofs Require Import OpTablesProofs.
+Theorem C03_cast_table_is_the_compilers : forall target src x op t1 ib0 ic0 ib1 ic1 b,
+  elab_text x b (cast_text op target src t1 ib0 ic0 ib1 ic1) = Some (cast_il_exec target src x).
+Proof. exact cast_text_ok. Qed.
+Print Assumptions C03_cast_table_is_the_compilers.
